@@ -1160,6 +1160,10 @@ class RunBundler:
                 # the collected frames cannot be re-taken: a rewind must not hand their seq_nums out again
                 self._sequence_counters_copy[stream_name] = self._sequence_counters[stream_name]
 
+            if indices_difference and stream_name:
+                # The events went with stream datums: their frames cannot be re-taken either.
+                self._sequence_counters_copy[stream_name] = self._sequence_counters[stream_name]
+
             if return_payload:
                 return payload
 
